@@ -151,11 +151,13 @@ func (l *gatedListener) ev(to, from, e string) {
 	<-l.gate
 	l.in--
 }
-func (l *gatedListener) Starting()                        { l.ev("Starting", "New", "none") }
-func (l *gatedListener) Running()                         { l.ev("Running", "Starting", "none") }
-func (l *gatedListener) Stopping(from services.State)     { l.ev("Stopping", from.String(), "none") }
-func (l *gatedListener) Terminated(from services.State)   { l.ev("Terminated", from.String(), "none") }
-func (l *gatedListener) Failed(from services.State, e error) { l.ev("Failed", from.String(), nameOf(e)) }
+func (l *gatedListener) Starting()                      { l.ev("Starting", "New", "none") }
+func (l *gatedListener) Running()                       { l.ev("Running", "Starting", "none") }
+func (l *gatedListener) Stopping(from services.State)   { l.ev("Stopping", from.String(), "none") }
+func (l *gatedListener) Terminated(from services.State) { l.ev("Terminated", from.String(), "none") }
+func (l *gatedListener) Failed(from services.State, e error) {
+	l.ev("Failed", from.String(), nameOf(e))
+}
 
 type svcHarness struct {
 	mode    string // any | idle | timer
@@ -173,13 +175,14 @@ type svcHarness struct {
 
 	starts []string
 
-	nc       int
-	cur      int // caller whose StopAsync is running towards the yield point
-	parked   []bool
-	stopDone []bool
-	yield    []chan struct{}
-	panics   []string
-	free     bool
+	nc           int
+	cur          int // caller whose StopAsync is running towards the yield point
+	parked       []bool
+	stopDone     []bool
+	stopPanicked []bool
+	yield        []chan struct{}
+	panics       []string
+	free         bool
 
 	lis    []*gatedListener
 	rm     []func()
@@ -257,6 +260,7 @@ func newSvcHarness(mode string, present []string, nc, nl int, wrun, wterm []int)
 	h.inGate = "none"
 	h.parked = make([]bool, nc)
 	h.stopDone = make([]bool, nc)
+	h.stopPanicked = make([]bool, nc)
 	h.yield = make([]chan struct{}, nc)
 	for i := range h.yield {
 		h.yield[i] = make(chan struct{})
@@ -299,6 +303,7 @@ func (h *svcHarness) stopAsync(c int) {
 		defer func() {
 			if r := recover(); r != nil {
 				h.panics = append(h.panics, fmt.Sprint(r))
+				h.stopPanicked[c] = true
 				h.parked[c] = false
 			}
 			h.stopDone[c] = true
@@ -403,6 +408,8 @@ func (h *svcHarness) observe() obs {
 	}
 	for c := 0; c < h.nc; c++ {
 		switch {
+		case h.stopPanicked[c]:
+			o.Spc = append(o.Spc, "panicked")
 		case h.stopDone[c]:
 			o.Spc = append(o.Spc, "done")
 		case h.parked[c]:
@@ -604,6 +611,7 @@ func replayOne(t *testing.T, tr *trie, leaf string, rc replayCfg) (mis []abs.Mis
 		services.VerifYield = h.yieldHook
 		defer func() { services.VerifYield = nil }()
 		seenPanics := 0
+		countedGuard := map[int]bool{}
 		for i, s := range steps {
 			if i > 0 {
 				if err := h.apply(s); err != nil {
@@ -630,17 +638,23 @@ func replayOne(t *testing.T, tr *trie, leaf string, rc replayCfg) (mis []abs.Mis
 				break
 			}
 			want = normalise(want, &got, rc.mode)
-			if asJSON(got) != asJSON(want) {
-				if got.Pan != want.Pan {
-					cp := got
-					cp.Pan = want.Pan
-					if asJSON(cp) == asJSON(want) {
-						if got.Pan < want.Pan {
-							report("spec-variant:nil-cancel-call-modelled-but-no-panic", i, got, want, "set GuardNilCancel")
-						}
-						continue // a panic the specification variant does not model: already reported above
+			// The two variants of StopAsync (GuardNilCancel) differ only in whether the loser of the
+			// New->Terminated race panics; whichever the code does, the rest must agree. A panic is
+			// reported above in any case; a modelled nil call that did not panic is only counted.
+			for c := range want.Spc {
+				if c < len(got.Spc) && want.Spc[c] == "panicked" && got.Spc[c] == "done" {
+					got.Spc[c] = "panicked"
+					got.Pan++
+					if !countedGuard[c] {
+						countedGuard[c] = true
+						guardedNilCalls++
 					}
+				} else if c < len(got.Spc) && want.Spc[c] == "done" && got.Spc[c] == "panicked" {
+					got.Spc[c] = "done"
+					got.Pan--
 				}
+			}
+			if asJSON(got) != asJSON(want) {
 				report("obs:"+diffFields(got, want)+" after "+s.Label, i, got, want, "")
 				break
 			}
@@ -671,11 +685,16 @@ func diffFields(got, want obs) string {
 
 // ---------------------------------------------------------------- parent / child
 
+// guardedNilCalls counts steps where the specification variant GuardNilCancel = FALSE models a call of
+// the nil serviceCancel and the code did not panic (the code implements the guarded variant).
+var guardedNilCalls int
+
 type childState struct {
-	Next       int `json:"next"` // index of the behaviour being replayed (or about to be)
-	Cases      int `json:"cases"`
-	Nontrivial int `json:"nontrivial"`
-	Total      int `json:"total"`
+	Guarded    int  `json:"guarded"`
+	Next       int  `json:"next"` // index of the behaviour being replayed (or about to be)
+	Cases      int  `json:"cases"`
+	Nontrivial int  `json:"nontrivial"`
+	Total      int  `json:"total"`
 	Done       bool `json:"done"`
 }
 
@@ -687,7 +706,7 @@ func runChildLoop(t *testing.T, childTest string, res *abs.Result) {
 	}
 	defer os.RemoveAll(dir)
 	statePath, misPath := dir+"/state.json", dir+"/mis.ndjson"
-	from, crashes := 0, 0
+	from, crashes, guardedTotal := 0, 0, 0
 	for {
 		cmd := exec.Command(os.Args[0], "-test.run", "^"+childTest+"$", "-test.count=1", "-test.timeout=3000s")
 		cmd.Env = append(os.Environ(), "VERIF_CHILD_FROM="+strconv.Itoa(from), "VERIF_CHILD_STATE="+statePath, "VERIF_CHILD_MIS="+misPath)
@@ -712,6 +731,8 @@ func runChildLoop(t *testing.T, childTest string, res *abs.Result) {
 		}
 		res.Cases += st.Cases
 		res.Nontrivial += st.Nontrivial
+		guardedTotal += st.Guarded
+		res.AddExtra("guarded_nil_calls", guardedTotal)
 		if st.Done && runErr == nil {
 			return
 		}
@@ -786,6 +807,7 @@ func childRun(t *testing.T, nleaves int, each func(i int) (cur any, mis []abs.Mi
 		writeState()
 		_, mis, nt := each(i)
 		st.Cases++
+		st.Guarded = guardedNilCalls
 		if nt {
 			st.Nontrivial++
 		}
@@ -801,6 +823,7 @@ func childRun(t *testing.T, nleaves int, each func(i int) (cur any, mis []abs.Mi
 		misf.Close()
 	}
 	st.Done = true
+	st.Guarded = guardedNilCalls
 	st.Next = nleaves
 	writeState()
 }
